@@ -333,6 +333,11 @@ def _do_add(model, bf, step, stats):
                 {"name": name, "length": ln, "start_at": start,
                  "scope": values})
     if not accepted:
+        # without an explicit position a definition can only clash by name,
+        # and the name was chosen among those no co-present field has
+        require(start is not None, "a field definition without explicit "
+                "position whose name no field of a compatible scope has is "
+                "rejected", {"name": name, "length": ln, "scope": values})
         stats["rejected_adds"] += 1
         return
     tagset = set(tags.split()) if isinstance(tags, str) else set(tags or [])
